@@ -22,8 +22,31 @@ def isMonotonicSaddle (f : AD α → AD α) (x tol : α) : Bool :=
   let x2 := D1.fdf f (x + tol)
   Num.beq (signVal x1.2) (signVal x2.2) && Num.beq (signVal x1.2) (signVal (x2.1 - x1.1))
 
+/-- `unresolved` inside the closure `step_off`: the derivative is an exact zero, or its sign
+    contradicts the direction `df` in which the function moves across the saddle (when `df ≠ 0`) -/
+def unresolvedD (df d : α) : Bool :=
+  Num.beq d zero || (Num.bne df zero && Num.bne (signum d) (signum df))
+
+/-- the `while` loop of the closure `step_off`: `x0 + dir*step` with `step = tol, 2 tol, 4 tol, …`
+    until the derivative there is resolved or the step would leave the cell (`fuel` bounds the
+    number of doublings: a binary64 step doubles at most ~2100 times) -/
+def stepOffLoop (f : AD α → AD α) (x0 dir width df : α) : Nat → α → α × α
+  | 0, step => (x0 + dir * step, D1.df f (x0 + dir * step))
+  | fuel + 1, step =>
+    let x := x0 + dir * step
+    let d := D1.df f x
+    if unresolvedD df d && Num.lt zero step && Num.lt (two * step) width then
+      stepOffLoop f x0 dir width df fuel (step * two)
+    else (x, d)
+
+/-- the closure `step_off` of `split_strictly_monotone` -/
+def stepOff (f : AD α → AD α) (tol x0 dir width : α) : α × α :=
+  let df := D1.f f (x0 + tol) - D1.f f (x0 - tol)
+  let (x, d) := stepOffLoop f x0 dir width df 2200 tol
+  if unresolvedD df d then (x0, if Num.bne df zero then signum df else one) else (x, d)
+
 /-- the `while` loop of `split_strictly_monotone` over the (end-shifted) grid -/
-def splitLoop (f : AD α → AD α) (tol : α) (maxRf : Nat) (xv : Array α) (dfv : Array (α × α)) :
+def splitLoop (f : AD α → AD α) (tol : α) (maxRf : Nat) (xSign : α) (xv : Array α) (dfv : Array (α × α)) :
     Nat → Nat → List α → Except DispErr (List α)
   | 0, _, roots => .ok roots.reverse
   | fuel + 1, i, roots =>
@@ -33,14 +56,20 @@ def splitLoop (f : AD α → AD α) (tol : α) (maxRf : Nat) (xv : Array α) (df
       let ldfs := (dfv.getD (i - 1) (zero, zero)).2
       let rdfs := (dfv.getD i (zero, zero)).2
       if !(Num.isFinite ldfs) || (Num.beq ldfs zero && !(isMonotonicSaddle f xl tol)) then
-        splitLoop f tol maxRf xv dfv fuel (i + 1) (xl :: roots)
+        splitLoop f tol maxRf xSign xv dfv fuel (i + 1) (xl :: roots)
       else if !(Num.isFinite rdfs) || (Num.beq rdfs zero && !(isMonotonicSaddle f xr tol)) then
-        splitLoop f tol maxRf xv dfv fuel (i + 2) (xr :: roots)
-      else if Num.bne (signum ldfs) (signum rdfs) then
-        match findRootBrent xl xr (fun x => D1.df f x) tol maxRf with
-        | .ok r => splitLoop f tol maxRf xv dfv fuel (i + 1) (r :: roots)
-        | .error e => .error (.root e)
-      else splitLoop f tol maxRf xv dfv fuel (i + 1) roots
+        splitLoop f tol maxRf xSign xv dfv fuel (i + 2) (xr :: roots)
+      else
+        -- an exact zero that passed the saddle test is a monotone saddle: step off it into the
+        -- cell (doubling the step) until the derivative is numerically resolved
+        let width := Num.abs (xr - xl)
+        let (xl', ldfs') := if Num.beq ldfs zero then stepOff f tol xl xSign width else (xl, ldfs)
+        let (xr', rdfs') := if Num.beq rdfs zero then stepOff f tol xr (-xSign) width else (xr, rdfs)
+        if Num.bne (signum ldfs') (signum rdfs') then
+          match findRootBrent xl' xr' (fun x => D1.df f x) tol maxRf with
+          | .ok r => splitLoop f tol maxRf xSign xv dfv fuel (i + 1) (r :: roots)
+          | .error e => .error (.root e)
+        else splitLoop f tol maxRf xSign xv dfv fuel (i + 1) roots
     else .ok roots.reverse
 
 /-- `split_strictly_monotone` -/
@@ -56,7 +85,7 @@ def splitStrictlyMonotone (f : AD α → AD α) (xv : List α) (tol : α) (maxRf
     let arr := arr.setIfInBounds 0 (arr.getD 0 zero + xSign * tol)
     let arr := arr.setIfInBounds (n - 1) (arr.getD (n - 1) zero - xSign * tol)
     let dfv := arr.map (fun x => D1.fdf f x)
-    splitLoop f tol maxRf arr dfv (n + 1) 1 []
+    splitLoop f tol maxRf xSign arr dfv (n + 1) 1 []
 
 /-- `slice.sort_by(cmp)` is a stable merge/insertion sort; for the comparator used here any
     stable sort gives the same result: stable insertion sort -/
